@@ -105,6 +105,17 @@ end Dict
 end BB
 
 namespace BB
+theorem mapM_cons_eq {α β : Type} (f : α → Except Err β) (a : α) (t : List α) :
+    (a :: t).mapM f =
+      match f a with
+      | .error e => .error e
+      | .ok b => match t.mapM f with
+        | .error e => .error e
+        | .ok bs => .ok (b :: bs) := by
+  rw [List.mapM_cons]
+  cases f a <;> simp [bind, Except.bind]
+  cases t.mapM f <;> simp [pure, Except.pure]
+
 theorem mapM_ok_of_forall {α β} (f : α → Except Err β) (g : α → β) (l : List α)
     (h : ∀ x ∈ l, f x = .ok (g x)) : l.mapM f = .ok (l.map g) := by
   induction l with
